@@ -14,6 +14,9 @@ CLAIMED = {
     "C09": ("Lean 4 theorems over translator-regenerated unit tables (decide +kernel over all unit pairs, lifted to every magnitude in any ordered field) + bit-exact correspondence run",
             "Proof: every clause of the property is a Lean theorem over the conversion tables regenerated from the Rust source on each run (identity, linearity, 0.1% round trip, 0.1% physical factor, create_time/create_speed/create_energy definitions and rejection), for all magnitudes in any linearly ordered field. The constructors' code shape is guarded by the translator and their behaviour tied by a bit-exact differential run on every unit combination.",
             "§5 C09"),
+    "C17": ("Lean 4 theorems over an executable model of MultiSet (mixed-radix counter, kept partial: panic / divergence are explicit outcomes) and of GridSearchPlugin::process + json_array_op/flatten over an insertion-ordered JSON model; textual correspondence run (key order included) against the real plugin, MultiSet and apply_input_plugins; independent oracle on the real outputs",
+            "Proof: for every JSON value the plugin (with its guard) neither panics nor diverges and computes a total function; for m>=1 axes of sizes n_i>=1 the enumeration terminates within fuel prod+1, has length prod n_i, no index combination twice, every in-range combination, k-th item = mixed-radix digits of k (first axis fastest; val increases by one per next); each generated query = original minus grid key (swap_remove order) overlaid with the chosen options, characterised as a map by 'last writer wins' (scalar under the field's name, object merged entry by entry, later axes override), untouched fields kept, no grid key left (proved from the textual recursion guard), pass-through without grid section, guard rejects exactly the degenerate sections, recursion guard stated as the text test it is; pipeline flatten yields exactly the expansion. Distinctness of the generated queries *as values* is proved for scalar axes with pairwise different options; with colliding option keys equal queries are possible by the merge semantics (witness theorem), which is read as outside 'none twice'. JSON objects are modelled as association lists with the serde_json invariant 'keys unique' as a hypothesis where needed.",
+            "§5 C17, A.4"),
 }
 
 NOT_YET = {
